@@ -495,6 +495,14 @@ impl SuccessfulAuthentication {
         match access_control.on_connect(request).await {
             Access::Allow => {
                 let guard = OnDisconnectGuard::for_access_control(access_control.clone(), request);
+                // Verification hook: `on_connect` admitted the connection, the client has not
+                // been told yet.
+                #[cfg(iroh_verif)]
+                crate::server::verif_pause::point(
+                    "authorize:allowed",
+                    request.connection_id().verif_raw(),
+                )
+                .await;
                 self.accept(io).await?;
                 Ok(guard)
             }
